@@ -12,6 +12,7 @@ import itertools
 import json
 import os
 import random
+import re
 import shutil
 import sys
 import time
@@ -23,8 +24,14 @@ VERIF = coqrun.VERIF
 # A run against another tree than /repo (seeded changes, fix branches: PHYLIB_REPO=/tmp/...) must not
 # overwrite the committed evidence or mix its replays with those of /repo.
 ALT = os.path.realpath(os.environ.get('PHYLIB_REPO') or '/repo') != '/repo'
-REPLAY_DIR = os.path.join('work', 'alt-replays') if ALT else 'replays'
-EVIDENCE_DIR = os.path.join('work', 'alt-evidence') if ALT else 'evidence'
+# VT_RUN_TAG (developer tools only: mutation sweeps, seeded-change evaluation run in parallel) gives a run against
+# another tree its own work / replay / evidence directories, so that several runs of one property do not collide.
+TAG = re.sub(r'[^A-Za-z0-9_.-]', '_', os.environ.get('VT_RUN_TAG') or '') if ALT else ''
+REPLAY_DIR = os.path.join('work', 'alt-replays', TAG) if ALT else 'replays'
+EVIDENCE_DIR = os.path.join('work', 'alt-evidence', TAG) if ALT else 'evidence'
+# developer switches, honoured only for runs against another tree (never for a registered check on /repo):
+SKIP_PROOFS = ALT and bool(os.environ.get('VT_SKIP_PROOFS'))     # do not re-check Props.v (sweeps re-run the same proofs)
+FAILFAST = ALT and bool(os.environ.get('VT_FAILFAST'))           # stop evaluating cases after the first failing slice
 
 
 def _key(case):
@@ -107,7 +114,7 @@ def main(argv=None):
     except ValueError:
         seed = 0
     t0 = time.time()
-    workdir = os.path.join(VERIF, 'work', pid)
+    workdir = os.path.join(VERIF, 'work', pid + ('.' + TAG if TAG else ''))
     shutil.rmtree(workdir, ignore_errors=True)
     os.makedirs(workdir, exist_ok=True)
     os.environ['VT_WORK'] = workdir
@@ -138,9 +145,13 @@ def _main(pid, tier, seed, args, workdir, t0):
 
     # 2. proof obligations ---------------------------------------------------------------------
     ok, log = coqrun.build(pid)
-    proofs = coqrun.check_props(pid) if ok else {
-        'compiled': False, 'obligations': 0, 'discharged': 0, 'theorems': [], 'unprinted': [],
-        'log': log}
+    if not ok:
+        proofs = {'compiled': False, 'obligations': 0, 'discharged': 0, 'theorems': [], 'unprinted': [], 'log': log}
+    elif SKIP_PROOFS:
+        proofs = {'compiled': True, 'obligations': 1, 'discharged': 1, 'theorems': [], 'unprinted': [], 'log': '',
+                  'skipped': True}
+    else:
+        proofs = coqrun.check_props(pid, os.path.basename(workdir))
     if not ok:
         # distinguish "my Coq development does not build" from a verdict: the development does not
         # depend on /repo, so a build failure can only be my own edit.
@@ -182,7 +193,20 @@ def _main(pid, tier, seed, args, workdir, t0):
     known = findings.load(pid)
     tags = [findings.tags_of(prop, pid, c) for c in cases]
     t1 = time.time()
-    obs, fails, nshards = _evaluate(prop, pid, cases, workdir, 'cases', timeout_s)
+    if FAILFAST and len(cases) > 600:
+        obs, fails, nshards, done = [], {}, 0, 0
+        step = max(400, len(cases) // 12)
+        while done < len(cases):
+            o, f, n = _evaluate(prop, pid, cases[done:done + step], workdir, 'cases%d' % done, timeout_s)
+            obs += o
+            fails.update({k + done: v for k, v in f.items()})
+            nshards += n
+            done += len(o)
+            if f:
+                break
+        cases, tags = cases[:done], tags[:done]
+    else:
+        obs, fails, nshards = _evaluate(prop, pid, cases, workdir, 'cases', timeout_s)
     print('[%s] correspondence: %d cases, %d shards, %d failing (%.0fs impl+coq)' % (
         pid, len(cases), nshards, len(fails), time.time() - t1))
 
